@@ -235,7 +235,11 @@ func fnRenameNx(ctx *cmdContext, args map[string]any) (output respValue, err err
 
 func fnScan(ctx *cmdContext, args map[string]any) (output respValue, err error) {
 	cursor := args["cursor"].(int64)
-	match, _ := args["pattern"].(string)
+	match, matchSpecified := args["pattern"].(string)
+	if !matchSpecified {
+		// no MATCH option: everything matches (an empty pattern only matches the empty name)
+		match = "*"
+	}
 	count, countSpecified := args["count"].(int64)
 	typeOption, _ := args["type"].(string)
 
